@@ -92,6 +92,60 @@ func (m *RWMutex) RUnlock() {
 	}
 }
 
+// Pool: Get and Put are scheduling points; in addition the caller may be descheduled right after a
+// Put (a second point after the effect).  Everywhere else a switch just after an operation is the
+// same as one just before the task's next operation, because nothing a task does in between is
+// visible to the others; a Put is the exception, since it publishes an object the task may go on
+// touching - exactly the mistake a pool invites.  Items are handed out last-in first-out; a pool that
+// outlives an execution (package-level variable) starts every execution empty.  The happens-before
+// edge is the runtime's: Put(x) before the Get that returns x.
+type Pool struct {
+	New   func() any
+	items []poolItem
+	id    int
+	run   int
+}
+
+type poolItem struct {
+	v  any
+	hb *stdsync.Mutex
+}
+
+func (p *Pool) fresh() {
+	if p.run != vsched.RunSeq {
+		p.run, p.items = vsched.RunSeq, nil
+	}
+}
+
+func (p *Pool) Get() any {
+	vsched.PointOp("pool.get", vsched.ObjID(&p.id), nil)
+	p.fresh()
+	if n := len(p.items); n > 0 {
+		it := p.items[n-1]
+		p.items = p.items[:n-1]
+		it.hb.Lock()
+		it.hb.Unlock()
+		return it.v
+	}
+	if p.New != nil {
+		return p.New()
+	}
+	return nil
+}
+
+func (p *Pool) Put(x any) {
+	vsched.PointOp("pool.put", vsched.ObjID(&p.id), nil)
+	if vsched.Aborting() {
+		return
+	}
+	p.fresh()
+	hb := new(stdsync.Mutex)
+	hb.Lock()
+	hb.Unlock()
+	p.items = append(p.items, poolItem{x, hb})
+	vsched.PointOp("pool.put-done", vsched.ObjID(&p.id), nil)
+}
+
 type Once struct {
 	done bool
 	m    Mutex
